@@ -8,6 +8,7 @@ abort (they end with a rejection), ignore it (they end with any result later) or
 signal (L7).  Float laws used: none.
 -/
 import CambrianModel.Lemmas.CtlStep
+import CambrianModel.Lemmas.LaunchLemmas
 namespace Cambrian.Props
 open Cambrian Cambrian.Ctl
 
@@ -80,6 +81,30 @@ theorem C04_returns_best (c : Cfg) (hnc : 0 < c.nc) (ss : Nat) (v0 d : V) (chs :
           | some (x, v) => .ok x v (run c ss (some v0) d chs evs).1.accepted (run c ss (some v0) d chs evs).1.rejected
           | none => .noIndividuals :=
   ((run_inv2 c hnc ss v0 d chs evs).retOut o dr hret).2.1
+
+/-! ### L7: terminate command, time limit and interrupt all end in ONE abort request -/
+
+/-- `async_launch::launch`: however many Terminate commands arrive (a client sending it twice, the time limit
+    followed by an interrupt, ...), the controller receives at most one abort request ... -/
+theorem C04_one_abort_request (evs : List Launch.LEv) :
+    Launch.nAbortReq (Launch.lrun {} evs).2 ≤ 1 := by
+  simpa using (Launch.lrun_abort_le {} evs).1
+
+/-- ... the first one is passed on at once, and a later one changes nothing: in particular it does not end the run,
+    so the result returned is still the controller's (best seen so far, results arriving while draining included). -/
+theorem C04_terminate_first (s : Launch.LSt) (hd : s.done = false) (hh : s.holder = true) :
+    Launch.lstep s .terminate = ({ s with holder := false }, [.abortReq]) :=
+  Launch.lstep_first_terminate s hd hh
+
+theorem C04_terminate_again (s : Launch.LSt) (hh : s.holder = false) : Launch.lstep s .terminate = (s, []) :=
+  Launch.lstep_later_terminate s hh
+
+/-- `sync_launch`: the time limit sends exactly one Terminate command, whatever else happens -/
+theorem C04_time_limit_once (wr : Bool) (evs : List Launch.SEv) : Launch.nTerm (Launch.srun wr {} evs).2 ≤ 1 := by
+  have := Launch.srun_term_le wr {} evs
+  simpa using this
+
+example : (Launch.lrun {} [.terminate, .terminate, .ctlDone]).2 = [.abortReq, .retCtl] := by decide
 
 /-- non-vacuity: a terminate request with two evaluations in flight; one honours it (rejection), the other ignores it
     and delivers a result while draining - that result is the best-seen that is returned -/
